@@ -304,3 +304,24 @@ func (c *Ctx) Finish(verifDir string, seed int, explanation string, configs []st
 	}
 	return 0
 }
+
+// Borrow runs rules that were written for another property on a scratch context (sharing
+// the loaded programs) and files, under this property's rule id, the obligations whose
+// construct is selected by keep. Used where one structural condition is a necessary
+// condition of several properties.
+func (c *Ctx) Borrow(rule string, keep func(construct string) bool, run func(c2 *Ctx)) int {
+	c2 := NewCtx(c.Prop, c.Tier, c.Repo)
+	c2.Config = c.Config
+	c2.progs = c.progs
+	run(c2)
+	n := 0
+	for _, o := range c2.Obls {
+		if o.Status == Unresolved || keep(o.Construct) {
+			o.Rule = rule
+			c.add(o)
+			n++
+		}
+	}
+	c.Stats["product_states"] += c2.Stats["product_states"]
+	return n
+}
